@@ -26,6 +26,114 @@ def consts(a):
     return c["SUCCESS_STATUS_CODE"], c["ERROR_STATUS_CODE"], c["FAILURE_STATUS_CODE"]
 
 
+# --------------------------------------------------------------------------------------------------
+# validate (plain mode): the loop of Validate::execute that folds per-rules-file codes into the exit code.
+# One inductive step from an arbitrary state: region = from the evaluate_rule call to the next one (or to return).
+# --------------------------------------------------------------------------------------------------
+def m_result_code(ex, argv):
+    return ex.fresh_result(ex.fresh_int("i32", "code"), "evr")
+
+
+def validate_execute_step(a):
+    OK, ERR, FAILC = consts(a)
+    fre = r"commands::validate::<impl at guard/src/commands/validate\.rs:\d+:\d+: \d+:\d+>::execute"
+    text = mirsmt.find_fn(a.mir, fre)
+    hdr, locs, blocks = mirsmt.parse_fn(text)
+    sites = [bb for bb, sts in blocks.items() if any(re.search(r"= evaluate_rule\(", st) for st in sts)]
+    m = re.search(r"debug exit_code => (_\d+);", text)
+    if not sites or not m:
+        raise Untranslatable("Validate::execute: no evaluate_rule call site / no exit_code local")
+    ec = m.group(1)
+    a.fns.append("commands::validate::Validate::execute (per-rules-file exit-code fold, one step)")
+    for bb in sites:
+        mm = dict(mirexec.COMMON_MODELS)
+        mm.update({"evaluate_rule": m_result_code, "next": mirexec.m_option, "write_err": mirexec.m_result_unit})
+        ex = mirexec.Exec(text, a.enums, mirsmt.consts_of(a.mir), mm, set(), unroll=1, mir=a.mir, max_paths=20000)
+        e0 = ex.fresh_int("i32", "exit0")
+        s19, s5 = ex.fresh("Bool", "seen19"), ex.fresh("Bool", "seen5")
+
+        def inv(e, x19, x5):
+            return (f"(and (or (= {e} {OK}) (= {e} {ERR}) (= {e} {FAILC})) (= (= {e} {OK}) (and (not {x19}) (not {x5}))) "
+                    f"(=> (and {x19} (not {x5})) (= {e} {FAILC})) (=> (and {x5} (not {x19})) (= {e} {ERR})))")
+        ex.side.append(inv(e0[1], s19, s5))
+        ex.run_from(bb, stop_blocks={bb}, init_env={ec: e0})
+        a.npaths += len(ex.paths)
+        bad = []
+        for p in ex.paths:
+            cs = calls(p, "evaluate_rule")
+            if len(cs) != 1:
+                bad.append(pc_term(p.pc))
+                continue
+            ctag, code = cs[0][3][2], cs[0][3][3]["Ok"][1]
+            dom = f"(or (= {code} {OK}) (= {code} {ERR}) (= {code} {FAILC}))"
+            n19, n5 = f"(or {s19} (= {code} {FAILC}))", f"(or {s5} (= {code} {ERR}))"
+            if p.outcome.startswith("stop"):
+                e1 = p.env.get(ec)
+                good = inv(e1[1], n19, n5) if e1 and e1[0] == "int" else "false"
+                bad.append(f"(and {pc_term(p.pc)} {dom} (not (and (= {ctag} 0) {good})))")
+            elif p.outcome == "return":
+                r = p.ret
+                if r and r[0] == "enum" and r[1] == "Result":
+                    okv = r[3].get("Ok")
+                    good_ok = inv(okv[1], n19, n5) if okv and okv[0] == "int" else "false"
+                    # Err only if a callee failed (evaluate_rule or writer / iterator errors): not constrained further
+                    bad.append(f"(and {pc_term(p.pc)} {dom} (= {r[2]} 0) (not (and (= {ctag} 0) {good_ok})))")
+                else:
+                    bad.append(pc_term(p.pc))
+        c = a.discharge(f"Validate::execute/{bb}/exit-code-step", ex, bad,
+                    f"plain validate, the loop over rules files, one step from an arbitrary state (call site {bb}): if before the step the "
+                    f"exit code e satisfies [e = {OK} iff no file failed or errored; only FAILs seen -> {FAILC}; only parse errors seen -> {ERR}] "
+                    f"then it does so after folding in one more per-file code in {{{OK},{ERR},{FAILC}}}, both when the loop continues and when "
+                    "the function returns Ok(e)")
+        if c:
+            c["replay"] = replay_exit_codes(a)
+            c["reproduced"] = c["replay"].get("reproduced", False)
+            a.candidates.append(c)
+
+
+def replay_exit_codes(a, structured=False):
+    """plain `validate` over sequences of <= 3 rules files (PASS / FAIL / SKIP / syntactically broken) on one document, as
+    files and as a --payload document: exit 0 iff nothing failed or errored, 19 if all parse and one FAILs, 5 if one does
+    not parse and nothing FAILs, non-zero otherwise"""
+    import itertools, json, os, shutil, subprocess, tempfile
+    exe = a.cli()
+    if not exe:
+        return {"reproduced": False, "note": "native build failed"}
+    texts = {"P": "rule p { a == 1 }\n", "F": "rule f { a == 2 }\n", "S": "rule s when a == 2 { a == 1 }\n", "B": "rule b { a == }\n"}
+    data = '{"a": 1}\n'
+    d = tempfile.mkdtemp(prefix="cfnverif_replay_")
+    out = []
+    try:
+        open(os.path.join(d, "d.json"), "w").write(data)
+        for k, t in texts.items():
+            open(os.path.join(d, f"{k}.guard"), "w").write(t)
+        seqs = [s for n in (1, 2, 3) for s in itertools.product("PFSB", repeat=n)]
+        for seq in seqs:
+            exp = ("zero" if not set(seq) & {"F", "B"} else "19" if "B" not in seq else "5" if "F" not in seq else "nonzero")
+            for mode in ("files", "payload"):
+                if mode == "files":
+                    cmd = [exe, "validate", "-d", os.path.join(d, "d.json"), "--show-summary", "none"]
+                    for i, k in enumerate(seq):
+                        # the same rules file may not be given twice under one name: copy
+                        f = os.path.join(d, f"{i}_{k}.guard")
+                        shutil.copy(os.path.join(d, f"{k}.guard"), f)
+                        cmd += ["-r", f]
+                    inp = None
+                else:
+                    cmd = [exe, "validate", "--payload", "--show-summary", "none"]
+                    inp = json.dumps({"rules": [texts[k] for k in seq], "data": [data]})
+                if structured:
+                    cmd += ["--structured", "-o", "json"]
+                pr = subprocess.run(cmd, input=inp, stdout=subprocess.PIPE, stderr=subprocess.PIPE, text=True, timeout=120)
+                rc = pr.returncode
+                ok = {"zero": rc == 0, "19": rc == 19, "5": rc == 5, "nonzero": rc != 0}[exp]
+                if not ok:
+                    out.append({"rules_files": [texts[k] for k in seq], "mode": mode, "expected_exit": exp, "observed_exit": rc})
+        return {"reproduced": bool(out), "mismatches": out[:5], "document": data, "sequences_tried": len(seqs) * 2}
+    finally:
+        shutil.rmtree(d, ignore_errors=True)
+
+
 def opt_some(v):
     return v[3].get("Some") if (v and v[0] == "enum" and v[1] == "Option") else None
 
@@ -151,6 +259,8 @@ def structured_report(a):
                     f"{FAILC} iff some evaluation was FAIL, else the code carried in (parse errors); Err only from a callee")
     if c:
         c["replay"] = replay_batch(a)
+        if not c["replay"].get("reproduced"):
+            c["replay"] = replay_exit_codes(a, structured=True)
         c["reproduced"] = c["replay"].get("reproduced", False)
         a.candidates.append(c)
 
@@ -162,7 +272,7 @@ def replay_batch(a):
     if not exe:
         return {"reproduced": False, "note": "native build failed"}
     rules = ["let v = a\nrule r { %v == 1 }\nrule s when a == 1 { b exists }\n",
-             "let v = b\nrule r { %v == 2 }\nrule q { r }\n"]
+             "let v = b\nrule r { %v == 2 }\nrule q {\n  r\n}\n"]
     datas = ['{"a": 1,\n "b": 2}\n', '{"a": 2,\n "b": 1}\n', '{"a": 1,\n "b": 1}\n']
     d = tempfile.mkdtemp(prefix="cfnverif_replay_")
     out = []
@@ -218,6 +328,125 @@ def replay_batch(a):
                     exp["status"] = "FAIL" if "FAIL" in sts else ("PASS" if "PASS" in sts else "SKIP")
                     if got != exp:
                         out.append({"order": [order_r, order_d], "document": di, "expected_union_of_singletons": exp, "observed": got})
+        return {"reproduced": bool(out), "mismatches": out[:4], "rules_files": rules, "documents": datas}
+    finally:
+        shutil.rmtree(d, ignore_errors=True)
+
+
+# --------------------------------------------------------------------------------------------------
+# plain validate: evaluate_against_data_input - one scope per document
+# --------------------------------------------------------------------------------------------------
+def data_input_wiring(a):
+    df = struct_fields(a.src, "commands/validate.rs", "DataFile")
+    ex = a.exec(r"(?:commands::validate::)?evaluate_against_data_input",
+                {"root_scope": m_scope, "eval_rules_file": mirexec.m_result_status, "is_empty": lambda ex, av: ("bool", "true"),
+                 "report_eval": mirexec.m_result_unit, "next": mirexec.m_iter_next, "into_iter": mirexec.m_new_iter,
+                 "iter": mirexec.m_new_iter, RC_NEW: mirexec.m_identity, "from": lambda ex, av: ex.opq()},
+                init_env={"_7": ("bool", "false"), "_8": ("bool", "false"), "_3": ("enum", "Option", "0", {})},
+                unroll=2, max_paths=40000)
+    a.fns.append("commands::validate::evaluate_against_data_input (scope per document)")
+    rules = ex.arg_env["_5"]
+    files = ex.arg_env["_4"]
+    bad, n = [], 0
+    for p in ex.paths:
+        its = iterations(ex, p, it_filter=lambda ev: ex.iter_src.get(ev[2][0][1], ev[2][0]) == files)
+        idx = {i: el for _k, el, _t, i in its}
+        cur, per = None, []
+        for i, e in enumerate(p.events):
+            if i in idx:
+                cur = idx[i]
+            if e[0] == "call" and e[1] == "eval_rules_file":
+                per.append(cur)
+        n += len(per)
+
+        def fld(i, name, ty):
+            el = per[i] if i < len(per) else None
+            return field(ex, el, df.index(name), ty) if el is not None and el[0] == "opaque" else None
+        probs = pair_wiring(ex, p, lambda i: rules, lambda i: fld(i, "path_value", "PathAwareValue"), lambda i: fld(i, "name", "String"))
+        evals = calls(p, "eval_rules_file")
+        n_it = "(+ 0 0 " + " ".join(f"(ite (= {t} 1) 1 0)" for _k, _e, t, _i in its) + ")"
+        anyerr = "(or false " + " ".join(f"(= {e[3][2]} 1)" for e in evals + calls(p, "report_eval") if e[3][0] == "enum") + ")"
+        rtag, _rst = ret_ok_status(p)
+        complete = f"(=> (= {rtag} 0) (and (not {anyerr}) (= {n_it} {len(evals)})))" if rtag is not None else "false"
+        good = "false" if probs else complete
+        bad.append(f"(and {pc_term(p.pc)} (not {good}))")
+    c = a.discharge("evaluate_against_data_input/scope-per-document", ex, bad,
+                    f"plain validate, one rules file x <= 2 documents, no input parameters ({n} evaluations over all paths): every "
+                    "document is evaluated exactly once in a fresh scope built from the rules file and that document, labelled with that "
+                    "document's name; no scope is reused")
+    if c:
+        c["replay"] = replay_batch_plain(a)
+        c["reproduced"] = c["replay"].get("reproduced", False)
+        a.candidates.append(c)
+
+
+def replay_batch_plain(a):
+    """plain `validate -o json` prints one report per (rules file, document) pair: the batch run must print, for every
+    pair, what the singleton run of that pair prints, and exit 19 iff some pair FAILs"""
+    import json, os, shutil, subprocess, tempfile
+    exe = a.cli()
+    if not exe:
+        return {"reproduced": False, "note": "native build failed"}
+    rules = ["let v = a\nrule r { %v == 1 }\nrule s when a == 1 { b exists }\n",
+             "let v = b\nrule r { %v == 2 }\nrule q {\n  r\n}\n"]
+    datas = ['{"a": 1,\n "b": 2}\n', '{"a": 2,\n "b": 1}\n', '{"a": 1,\n "b": 1}\n']
+    d = tempfile.mkdtemp(prefix="cfnverif_replay_")
+    try:
+        rf, dfs = [], []
+        for i, t in enumerate(rules):
+            rf.append(os.path.join(d, f"r{i}.guard"))
+            open(rf[-1], "w").write(t)
+        for i, t in enumerate(datas):
+            dfs.append(os.path.join(d, f"d{i}.json"))
+            open(dfs[-1], "w").write(t)
+
+        def run(rs, ds):
+            cmd = [exe, "validate", "-o", "json", "--show-summary", "none"]
+            for r_ in rs:
+                cmd += ["-r", r_]
+            for d_ in ds:
+                cmd += ["-d", d_]
+            p = subprocess.run(cmd, stdout=subprocess.PIPE, stderr=subprocess.PIPE, text=True, timeout=120)
+            objs, dec, txt, i = [], json.JSONDecoder(), p.stdout, 0
+            try:
+                while i < len(txt):
+                    while i < len(txt) and txt[i].isspace():
+                        i += 1
+                    if i >= len(txt):
+                        break
+                    o, i = dec.raw_decode(txt, i)
+                    objs.append(o)
+            except Exception:
+                return p.returncode, None
+            return p.returncode, objs
+
+        def norm(rep):
+            return {"name": os.path.basename(rep.get("name", "")), "status": rep.get("status"), "compliant": sorted(rep.get("compliant", [])),
+                    "not_applicable": sorted(rep.get("not_applicable", [])),
+                    "not_compliant": sorted(x["Rule"]["name"] for x in rep.get("not_compliant", []) if "Rule" in x)}
+        singles, any_fail = {}, False
+        for di, df_ in enumerate(dfs):
+            for ri, r_ in enumerate(rf):
+                rc, objs = run([r_], [df_])
+                if not objs or len(objs) != 1:
+                    return {"reproduced": False, "note": "singleton run gave no report", "exit": rc}
+                singles[(ri, di)] = norm(objs[0])
+                any_fail = any_fail or singles[(ri, di)]["status"] == "FAIL"
+        out = []
+        for order_r in ([0, 1], [1, 0]):
+            for order_d in ([0, 1, 2], [2, 0, 1]):
+                rc, objs = run([rf[i] for i in order_r], [dfs[i] for i in order_d])
+                if rc != (19 if any_fail else 0):
+                    out.append({"order": [order_r, order_d], "problem": f"exit code {rc}"})
+                if not objs or len(objs) != len(order_r) * len(order_d):
+                    out.append({"order": [order_r, order_d], "problem": "missing reports", "exit": rc})
+                    continue
+                k = 0
+                for ri in order_r:
+                    for di in order_d:
+                        if norm(objs[k]) != singles[(ri, di)]:
+                            out.append({"order": [order_r, order_d], "pair": [ri, di], "singleton": singles[(ri, di)], "in_batch": norm(objs[k])})
+                        k += 1
         return {"reproduced": bool(out), "mismatches": out[:4], "rules_files": rules, "documents": datas}
     finally:
         shutil.rmtree(d, ignore_errors=True)
@@ -368,7 +597,7 @@ def report_partition(a):
 
 
 SITES = {
-    "C06": [structured_report, junit_exit_code, junit_test_case],
-    "C12": [structured_report, junit_test_case],
+    "C06": [structured_report, junit_exit_code, junit_test_case, validate_execute_step],
+    "C12": [structured_report, junit_test_case, data_input_wiring],
     "C09": [report_partition],
 }
